@@ -68,6 +68,27 @@ def mc_case(draw, sub, tier="quick"):
         sc["choices"] = draw(st.lists(st.integers(0, 7), min_size=40, max_size=300))
         sc["policy"] = draw(st.sampled_from(POLICIES))
         sc["cap"] = draw(st.sampled_from([None, None, 1, 2, 5]))
+    # options that only rewrite names or qualities are allowed with --cores as well
+    k = draw(st.integers(0, 8))
+    o = sc["o"]
+    if k == 0:
+        o["rename"] = draw(st.sampled_from(
+            ["{id} {comment} a={adapter_name} m={match_sequence}", "{id}_{cut_prefix}_{cut_suffix} {comment}",
+             "{id} {rc} {adapter_name}", "{header} x"] +
+            (["{id} {r1.adapter_name}+{r2.adapter_name} {r1.cut_prefix}", "{id} {r2.match_sequence} {comment}"]
+             if sc["paired"] else [])))
+    elif k == 1:
+        o["length_tag"] = "length="
+    elif k == 2:
+        o["prefix"], o["suffix"] = "pre_{name}_", "_suf"
+    elif k == 3:
+        o["strip_suffix"] = ["x", " xy"]
+    elif k == 4 and sc["fastq"]:
+        o["zero_cap"] = True
+    if sc["paired"] and draw(st.integers(0, 5)) == 0:
+        o["cut2"] = [draw(st.sampled_from([1, -2, 3]))]
+    if sc["paired"] and draw(st.integers(0, 7)) == 0:
+        o["length2_arg"] = draw(st.sampled_from([4, 9]))
     return sc
 
 
